@@ -76,6 +76,37 @@ def run(o, ctx, tier, seed, replay=None):
         seq = [min(max(anchor + d, 0), END - 1) for d in walk]
         cl.append("DATECACHE " + ",".join(map(str, seq)))
     diff_run(o, ctx, cl, oracle=oracle, nontrivial=lambda c, a: "," in c, tags=lambda c, a: "cache:len=%d" % (c.count(",") + 1))
+    # (run_lag — Date vs. the clock at the first WRITE — is not part of the check: the unchanged printer already builds the head,
+    #  Date included, before it reads a body that needs no probe (declared length > 8 KiB, explicit chunked), so a slow source
+    #  delays the bytes, not the reading; the property is about the per-thread cache, see DESIGN.md §17.10)
+
+
+def run_lag(o, ctx, t, seed):
+    """the Date a response carries is read when the message is about to go out: a body source that takes s seconds before it hands
+    over its first bytes (the printer probes the body before it writes the head) must not make the Date lag by those s seconds"""
+    r = rng_for(seed, "date-lag")
+    lines = []
+    for entry in ("reader", "request"):
+        for n in (10, 5000, 20000):
+            for decl in ("-", "scl:%d" % n, "ste"):
+                for bump in ((3, 40) if t == "quick" else (2, 3, 40, 86400)):
+                    lines.append("PRINT entry=%s code=200 reason=4f4b nodate=0 hdr=%s bodyrep=78*%d pieces=%s bump=%d%s"
+                                 % (entry, decl, n, r.choice(["-", "100", "4096,1"]), bump, " method=POST uri=2f75" if entry == "request" else ""))
+    for c, a in zip(lines, C.run_sharded(ctx["kimpl"], lines, shards=4)):
+        o.evaluations += 1
+        o.count("date-lag:" + a.split()[0])
+        p_ = a.split()
+        why = None
+        if len(p_) != 3 or p_[0] != "LAG":
+            why = "printing a reader body from a slow source failed: " + a[:40]
+        else:
+            fw, wire = int(p_[1]), unhex(p_[2])
+            i = wire.lower().find(b"date: ")
+            got = wire[i:wire.find(b"\r\n", i) + 2] if i >= 0 else b""
+            if got not in (ref_line(fw), ref_line(fw - 1)):
+                why = "Date header %r although the clock read %d when the first byte was written (the header lags by more than a second)" % (got, fw)
+        if why and len(o.violations) < 50:
+            o.violations.append({"case": c, "impl": a[:200], "why": why})
 
 
 def oracle(case, impl, model):
